@@ -34,6 +34,9 @@ pub struct Produced {
     pub exports: Vec<(Vec<u8>, usize, Vec<u8>)>,
     /// (ciphertext, aad) sealed at the LAST sequence number 2^64-1 (guard-on builds only)
     pub last: Option<(Vec<u8>, Vec<u8>)>,
+    /// (plaintext, ciphertext || tag, aad) produced by single_shot_seal and by single_shot_seal_in_place_detached with
+    /// the same randomness (so their encapsulated key is the session's)
+    pub single_shot: Vec<(Vec<u8>, Vec<u8>, Vec<u8>)>,
 }
 
 pub fn export_probes(seed: u64) -> Vec<(Vec<u8>, usize)> {
@@ -63,7 +66,22 @@ pub fn produce(suite: SuiteId, m: &ModeSpec, pk_r: &[u8], info: &[u8], ikm_e: &[
         s.set_seq(u64::MAX);
         last = Some((s.seal(b"the last message of the session", b"last").need("seal at the last sequence number")?, b"last".to_vec()));
     }
-    Ok((enc, Produced { cts, exports, last }))
+    let mut single_shot = vec![];
+    if suite.aead.can_seal() {
+        let (pt, aad) = (b"single-shot message".to_vec(), b"ss-aad".to_vec());
+        if let Obs::Ok((e, ct)) = ops.single_shot_seal(m, pk_r, info, &pt, &aad, &mut ScriptRng::new(ikm_e)) {
+            if e == enc {
+                single_shot.push((pt.clone(), ct, aad.clone()));
+            }
+        }
+        let mut b = pt.clone();
+        if let Obs::Ok((e, t)) = ops.single_shot_seal_ip(m, pk_r, info, &mut b, &aad, &mut ScriptRng::new(ikm_e)) {
+            if e == enc {
+                single_shot.push((pt.clone(), [b, t].concat(), aad.clone()));
+            }
+        }
+    }
+    Ok((enc, Produced { cts, exports, last, single_shot }))
 }
 
 /// The oracle: the receiver described by (suite_r, m_r, sk_r, enc, info) must share nothing with
@@ -88,6 +106,22 @@ pub fn must_not_share(out: &mut CaseOut, what: &str, suite_r: SuiteId, m_r: &Mod
                 o => {
                     out.fail(format!("{}: sender's ciphertext #{} -> {} (want Err(OpenError)): the contexts share key material", what, i, o.class()));
                     // keep going: also report the exports
+                }
+            }
+        }
+    }
+    if suite_r.aead.can_seal() {
+        // the single-shot forms are setups of their own: they must refuse the sender's single-shot messages just the same
+        let nt = suite_r.aead.nt();
+        for (i, (_, ct, aad)) in p.single_shot.iter().enumerate() {
+            out.transitions += 2;
+            if let Obs::Ok(_) = ops.single_shot_open(m_r, sk_r, enc, info, ct, aad) {
+                out.fail(format!("{}: single_shot_open accepts the sender's single-shot message #{}", what, i));
+            }
+            if ct.len() >= nt {
+                let mut b = ct[..ct.len() - nt].to_vec();
+                if let Obs::Ok(()) = ops.single_shot_open_ip(m_r, sk_r, enc, info, &mut b, aad, &ct[ct.len() - nt..]) {
+                    out.fail(format!("{}: single_shot_open_in_place_detached accepts the sender's single-shot message #{}", what, i));
                 }
             }
         }
@@ -133,6 +167,15 @@ pub fn must_share(out: &mut CaseOut, what: &str, suite: SuiteId, m_r: &ModeSpec,
     }
     for (c, l, v) in &p.exports {
         ok &= r.export(c, *l) == Obs::Ok(v.clone());
+    }
+    if suite.aead.can_seal() {
+        let nt = suite.aead.nt();
+        ok &= p.single_shot.len() == 2;
+        for (pt, ct, aad) in &p.single_shot {
+            ok &= ops.single_shot_open(m_r, sk_r, enc, info, ct, aad) == Obs::Ok(pt.clone());
+            let mut b = ct[..ct.len() - nt].to_vec();
+            ok &= ops.single_shot_open_ip(m_r, sk_r, enc, info, &mut b, aad, &ct[ct.len() - nt..]) == Obs::Ok(()) && b == *pt;
+        }
     }
     if !ok {
         out.fail(format!("{}: non-vacuity control failed: the MATCHING receiver does not open/export like the sender", what));
@@ -372,6 +415,22 @@ impl Part for C07 {
             }
         }
         perturb(&mut out, "encapsulated key without its last byte".into(), c.suite, &m, &k.sk_r, &enc[..enc.len() - 1], &info);
+        // strings that differ only in ASCII whitespace / NUL at their edges are different strings
+        for ws in [&b"\n"[..], b" ", b"\t", b"\r\n", b"\0"] {
+            perturb(&mut out, format!("info with {:?} appended", ws), c.suite, &m, &k.sk_r, &enc, &[&info[..], ws].concat());
+            perturb(&mut out, format!("info with {:?} prepended", ws), c.suite, &m, &k.sk_r, &enc, &[ws, &info[..]].concat());
+            if c.mode.has_psk() {
+                let mut m2 = m.clone();
+                m2.psk_id.extend_from_slice(ws);
+                perturb(&mut out, format!("psk_id with {:?} appended", ws), c.suite, &m2, &k.sk_r, &enc, &info);
+                let mut m2 = m.clone();
+                m2.psk_id = [ws, &m.psk_id[..]].concat();
+                perturb(&mut out, format!("psk_id with {:?} prepended", ws), c.suite, &m2, &k.sk_r, &enc, &info);
+                let mut m2 = m.clone();
+                m2.psk.extend_from_slice(ws);
+                perturb(&mut out, format!("psk with {:?} appended", ws), c.suite, &m2, &k.sk_r, &enc, &info);
+            }
+        }
         if c.suite.kem == Kem::X25519 {
             for b in 0..256 {
                 perturb(&mut out, format!("enc bit {}", b), c.suite, &m, &k.sk_r, &flip(&enc, b), &info);
